@@ -6,7 +6,8 @@
  * request in one write.  Observed: which callback (node, path) received the
  * request and the final status.  Compared with a reference matcher written
  * from include/event2/http.h:
- *   - method outside the allowed mask (or unknown)            → 501, no callback
+ *   - method outside the LISTENING server's allowed mask (or unknown) → 501, no callback;
+ *     a selected vhost's own mask (same / default / complement, field vm) never matters
  *   - host = host of an absolute-form target, else Host header (port removed), else none
  *   - vhost: an alias equal to the host (ASCII case-insensitive) anywhere in the
  *     tree wins; otherwise descend from the root into the first child whose
@@ -77,17 +78,20 @@ static const unsigned MASKS[] = { MASK_DEFAULT, EVHTTP_REQ_GET, SRV_ALL_METHODS,
 /* gencb mode: bit0 = root has a general callback, bit1 = the vhosts have one */
 #define NGEN 4
 
-struct cfg { int vs, ps, gen, mask, meth, tg, host; };
+/* vm = what the vhosts' own allowed-method masks are: 0 same as the listening server's,
+ * 1 left at evhttp_new()'s default, 2 the complement of the listening server's mask.
+ * The listening (root) server's mask decides in every mode (see ref_route). */
+struct cfg { int vs, ps, gen, mask, meth, tg, host, vm; };
 
 /* ---- slices (mixed radix) ---- */
-struct slice { const char *name; int dims[7]; /* radix per field, 0 = fixed at fix[] */ int fix[7]; /* fixed value, or first value when enumerated */ uint64_t size; };
+struct slice { const char *name; int dims[7]; /* radix per field, 0 = fixed at fix[] */ int fix[7]; /* fixed value, or first value when enumerated */ int vm; uint64_t size; };
 /* field order: vs ps gen mask meth tg host */
 static struct slice SL[8]; static int nsl; static uint64_t total;
 
-static void add_slice(const char *name, const int dims[7], const int fix[7])
+static void add_slice(const char *name, const int dims[7], const int fix[7], int vm)
 {
 	struct slice *s = &SL[nsl++];
-	s->name = name; s->size = 1;
+	s->name = name; s->size = 1; s->vm = vm;
 	for (int i = 0; i < 7; i++) { s->dims[i] = dims[i]; s->fix[i] = fix[i]; if (dims[i]) s->size *= (uint64_t)dims[i]; }
 	total += s->size;
 }
@@ -102,7 +106,7 @@ static void decode_item(uint64_t it, struct cfg *c, const char **slname)
 			if (SL[k].dims[i]) { v[i] = SL[k].fix[i] + (int)(it % (uint64_t)SL[k].dims[i]); it /= (uint64_t)SL[k].dims[i]; }
 			else v[i] = SL[k].fix[i];
 		}
-		*slname = SL[k].name;
+		*slname = SL[k].name; c->vm = SL[k].vm;
 		break;
 	}
 	c->vs = v[0]; c->ps = v[1]; c->gen = v[2]; c->mask = v[3]; c->meth = v[4]; c->tg = v[5]; c->host = v[6];
@@ -198,11 +202,14 @@ static void ref_route(const struct cfg *c, struct verdict *v)
 	char path[256]; unsigned char dec[256]; int has;
 	memset(v, 0, sizeof *v);
 	v->cb = -1;
-	if ((METH[c->meth].bit & mask) == 0) { v->status = 501; return; }
 	ref_split(TG[c->tg].text, v->host, sizeof v->host, &has, path, sizeof path);
 	v->host_present = has;
 	if (!has && HOSTS[c->host]) { ref_host_header(HOSTS[c->host], v->host, sizeof v->host); v->host_present = 1; }
 	v->node = ref_vhost(vs, v->host_present ? v->host : NULL, &v->via_alias);
+	/* evhttp_set_allowed_methods: "methods supported in requests accepted by this server": the
+	 * server that accepted the connection (the root) decides, whatever vhost is selected and
+	 * whatever that vhost's own mask is (evhttp_handle_request checks before looking at Host) */
+	if ((METH[c->meth].bit & mask) == 0) { v->status = 501; return; }
 	size_t dl = ref_pct_decode(path, dec);
 	for (int i = 0; PS[c->ps][i]; i++)
 		if (strlen(PS[c->ps][i]) == dl && !memcmp(PS[c->ps][i], dec, dl)) { v->status = 200; v->cb = v->node * 10 + i; return; }
@@ -226,9 +233,11 @@ static void configure(struct srv *s, void *arg)
 			evhttp_set_ext_method_cmp(h, srv_ext_cmp);
 			if (evhttp_add_virtual_host(nodes[vs->nd[i].parent], vs->nd[i].pattern, h) != 0) mc_fail("harness:add_virtual_host", "%s", vs->nd[i].pattern);
 		}
-		/* the same mask everywhere: whether a vhost's own mask matters is not documented */
-		if (MASKS[c->mask] != MASK_DEFAULT) evhttp_set_allowed_methods(h, MASKS[c->mask]);
-		else if (i == 0) evhttp_set_allowed_methods(h, DEFAULT_MASK);
+		unsigned rootmask = MASKS[c->mask] == MASK_DEFAULT ? DEFAULT_MASK : MASKS[c->mask];
+		if (i == 0) evhttp_set_allowed_methods(h, rootmask);   /* srv_open() had opened it up to all methods */
+		else if (c->vm == 0) { if (MASKS[c->mask] != MASK_DEFAULT) evhttp_set_allowed_methods(h, rootmask); }
+		else if (c->vm == 2) evhttp_set_allowed_methods(h, SRV_ALL_METHODS & ~rootmask);
+		/* vm == 1: the vhost keeps the default mask of evhttp_new() */
 		for (int a = 0; a < 2; a++) if (vs->nd[i].aliases[a]) evhttp_add_server_alias(h, vs->nd[i].aliases[a]);
 		for (int p = 0; PS[c->ps][p]; p++)
 			if (evhttp_set_cb(h, PS[c->ps][p], srv_handler, (void *)(intptr_t)(i * 10 + p)) != 0) mc_fail("harness:set_cb", "%s", PS[c->ps][p]);
@@ -253,7 +262,7 @@ static void item(uint64_t it)
 	srv_parse_responses(&s);
 	int got_cb = s.nreq ? s.req[0].cb_id : -1;
 	int got_status = s.nfinal ? s.final[0] : 0;
-	mc_observe("[%s] %s ps=%d gen=%d mask=%#x | %s -> ref %d cb=%d (host %s%s, node %d) | impl %d cb=%d", sl, VS[c.vs].name, c.ps, c.gen,
+	mc_observe("[%s] %s ps=%d gen=%d vm=%d mask=%#x | %s -> ref %d cb=%d (host %s%s, node %d) | impl %d cb=%d", sl, VS[c.vs].name, c.ps, c.gen, c.vm,
 	    MASKS[c.mask] == MASK_DEFAULT ? DEFAULT_MASK : MASKS[c.mask], srv_show((unsigned char *)req, (size_t)n, e1, sizeof e1), v.status, v.cb,
 	    v.host_present ? "=" : "absent", v.host, v.node, got_status, got_cb);
 	mc_nontrivial(mc_hash_u64(mc_hash_u64(7, (uint64_t)(got_cb + 2)), (uint64_t)got_status) ^ mc_hash(0, VS[c.vs].name, strlen(VS[c.vs].name)) ^ (uint64_t)c.tg * 1315423911u ^ (uint64_t)c.host << 40);
@@ -264,13 +273,15 @@ static void item(uint64_t it)
 	if (v.status == 501) {
 		MC_COUNT("oracle_method_filter_501");
 		if (got_status != 501 || got_cb != -1) {
-			snprintf(key, sizeof key, "C30/method-outside-mask-not-501/%s", METH[c.meth].name);
-			mc_fail(key, "method %s is outside the allowed mask %#x: expected 501 and no callback, got status %d callback %d", METH[c.meth].name, MASKS[c.mask], got_status, got_cb);
+			if (c.vm && v.node) snprintf(key, sizeof key, "C30/method-outside-mask-not-501/vhost-with-own-mask");
+			else snprintf(key, sizeof key, "C30/method-outside-mask-not-501/%s", METH[c.meth].name);
+			mc_fail(key, "%s vhost-mask-mode=%d host %s -> node %d: method %s is outside the listening server's mask %#x: expected 501 and no callback, got status %d callback %d", VS[c.vs].name, c.vm, v.host_present ? v.host : "(none)", v.node, METH[c.meth].name, MASKS[c.mask], got_status, got_cb);
 		}
 	} else if (got_status == 501) {
 		MC_COUNT("oracle_method_filter_allowed");
-		snprintf(key, sizeof key, "C30/allowed-method-rejected/%s", METH[c.meth].name);
-		mc_fail(key, "method %s is inside the allowed mask %#x but was answered 501", METH[c.meth].name, MASKS[c.mask]);
+		if (c.vm && v.node) snprintf(key, sizeof key, "C30/allowed-method-rejected/vhost-with-own-mask");
+		else snprintf(key, sizeof key, "C30/allowed-method-rejected/%s", METH[c.meth].name);
+		mc_fail(key, "%s vhost-mask-mode=%d host %s -> node %d: method %s is inside the listening server's mask %#x but was answered 501", VS[c.vs].name, c.vm, v.host_present ? v.host : "(none)", v.node, METH[c.meth].name, MASKS[c.mask]);
 	} else {
 		MC_COUNT("oracle_method_filter_allowed");
 		int got_node = got_cb >= 0 ? got_cb / 10 : -1;
@@ -307,16 +318,22 @@ int main(int argc, char **argv)
 	/* field order: vs ps gen mask meth tg host;  mask index 2 = all methods, meth 0 = GET, gen 3 = both */
 	if (!thorough) {
 		/* methods x masks, on the root and through a vhost */
-		add_slice("methods", (int[7]){ 2, 0, 0, NMASKS, NMETH, 3, 0 }, (int[7]){ 0, 2, 3, 0, 0, 0, 2 });
+		add_slice("methods", (int[7]){ 2, 0, 0, NMASKS, NMETH, 3, 0 }, (int[7]){ 0, 2, 3, 0, 0, 0, 2 }, 0);
+		/* the vhosts keep their own mask (default / complement): the listening server's mask still decides.
+		 * structure V1, hosts {none, "h", "www.ex.com" (selects *.ex.com)} */
+		add_slice("methods-vhost-default-mask", (int[7]){ 0, 0, 0, NMASKS, NMETH, 3, 3 }, (int[7]){ 1, 2, 3, 0, 0, 0, 0 }, 1);
+		add_slice("methods-vhost-complement-mask", (int[7]){ 0, 0, 0, NMASKS, NMETH, 3, 3 }, (int[7]){ 1, 2, 3, 0, 0, 0, 0 }, 2);
 		/* path dispatch: path sets x gencb x targets, three hosts, two structures */
-		add_slice("paths", (int[7]){ 2, NPS, NGEN, 0, 0, NTG, 3 }, (int[7]){ 0, 0, 0, 2, 0, 0, 0 });
+		add_slice("paths", (int[7]){ 2, NPS, NGEN, 0, 0, NTG, 3 }, (int[7]){ 0, 0, 0, 2, 0, 0, 0 }, 0);
 		/* vhost choice: structures x hosts, path set 1, gencb everywhere / only vhosts */
-		add_slice("vhosts", (int[7]){ NVS, 0, 2, 0, 0, 0, NHOSTS }, (int[7]){ 0, 1, 2, 2, 0, 0, 0 });
+		add_slice("vhosts", (int[7]){ NVS, 0, 2, 0, 0, 0, NHOSTS }, (int[7]){ 0, 1, 2, 2, 0, 0, 0 }, 0);
 		/* absolute-form targets against every structure and Host value */
-		add_slice("absolute", (int[7]){ NVS, 0, 0, 0, 0, 6, NHOSTS }, (int[7]){ 0, 1, 3, 2, 0, NTG - 6, 0 });
+		add_slice("absolute", (int[7]){ NVS, 0, 0, 0, 0, 6, NHOSTS }, (int[7]){ 0, 1, 3, 2, 0, NTG - 6, 0 }, 0);
 	} else {
-		add_slice("methods", (int[7]){ NVS, 0, 0, NMASKS, NMETH, 3, 4 }, (int[7]){ 0, 2, 3, 0, 0, 0, 0 });
-		add_slice("routing", (int[7]){ NVS, NPS, NGEN, 0, 0, NTG, NHOSTS }, (int[7]){ 0, 0, 0, 2, 0, 0, 0 });
+		add_slice("methods", (int[7]){ NVS, 0, 0, NMASKS, NMETH, 3, 4 }, (int[7]){ 0, 2, 3, 0, 0, 0, 0 }, 0);
+		add_slice("methods-vhost-default-mask", (int[7]){ NVS, 0, 0, NMASKS, NMETH, 3, 4 }, (int[7]){ 0, 2, 3, 0, 0, 0, 0 }, 1);
+		add_slice("methods-vhost-complement-mask", (int[7]){ NVS, 0, 0, NMASKS, NMETH, 3, 4 }, (int[7]){ 0, 2, 3, 0, 0, 0, 0 }, 2);
+		add_slice("routing", (int[7]){ NVS, NPS, NGEN, 0, 0, NTG, NHOSTS }, (int[7]){ 0, 0, 0, 2, 0, 0, 0 }, 0);
 	}
 	struct mc_config cfg = { .property = "C30", .init = init, .n_items = total, .item = item };
 	return mc_main(argc, argv, &cfg);
